@@ -561,3 +561,11 @@ Theorem C05_fields_ident1_canonb_sound :
      fields_ident1_canonb ex5_defs ex5_labels = false).
 Proof. exact fields_ident1_canonb_sound_examples. Qed.
 Print Assumptions C05_fields_ident1_canonb_sound.
+
+(** ... concretely: [a::Foo<T> { x: Vec<Box<T>>, y: Vec<T> }] at [u16] with ONE sequence entry for
+    both fields (what an interner that identifies types up to [canon] produces) satisfies
+    [RegistryOf], and no labelling at all makes it a [RegistryOf1] registry *)
+Theorem C05_example_canon_registry_is_not_real :
+  RegistryOf leg_defs (label_at leg_labels) leg_reg /\ forall L, ~ RegistryOf1 leg_defs L leg_reg.
+Proof. exact leg_example. Qed.
+Print Assumptions C05_example_canon_registry_is_not_real.
